@@ -131,6 +131,10 @@ impl Lexicon {
             let (result, nin, nout) = rdr.read_field(bytes, &mut output);
             let record_end = match result {
                 ReadFieldResult::InputEmpty => {
+                    // Only blank lines (or a line feed following the final CR) were left.
+                    if field_cnt == 0 && nout == 0 {
+                        break;
+                    }
                     features_len += nin + 1;
                     record_end_pos += nin;
                     true
